@@ -322,7 +322,7 @@ let check_tokens (cfg : econfig) (ops : eop list) (tr : tok list) : unit =
             | EInserter s -> (match find_to cfg s with Some t -> resolve_pause cfg t.to_pause | None -> resolve_pause cfg Z0)
             | _ -> Z0) in
           List.iter (function
-            | TUser (fu, view, _, _, UErr e) when is_step_fn fu ->
+            | TUser (fu, view, _, _, UErr e) when is_step_fn fu || (match fu with UFTimer _ -> true | _ -> false) ->
               let k = (inst, u, view.r_run, zi e) in
               let c = (try Hashtbl.find fail_count k with Not_found -> 0) + 1 in
               Hashtbl.replace fail_count k c;
